@@ -73,6 +73,9 @@ func genC07(t *rapid.T) E3Case {
 		if ev.Entry == "ctxwrite" || ev.Entry == "ctxtrigger" {
 			ev.At = rapid.IntRange(0, 14).Draw(t, "at")
 		}
+		if ev.Entry == "chwrite" || ev.Entry == "ctxwrite" {
+			ev.Reader = rapid.SampledFrom([]string{"", "", "", "eof", "eofdata"}).Draw(t, "reader")
+		}
 		c.Events = append(c.Events, ev)
 	}
 	switch rapid.IntRange(0, 5).Draw(t, "tail") {
@@ -286,9 +289,12 @@ func runC07(c E3Case) (out core.Outcome) {
 		var escaped interface{}
 		var stuck bool
 		panicsBefore := m.nextPanic
+		if ev.Reader != "" {
+			cls.Add("write-message:reader-%s", ev.Reader)
+		}
 		switch ev.Entry {
 		case "chwrite":
-			escaped, stuck = r.call(func() { _ = r.ch.Write([]byte("w:" + tag)) })
+			escaped, stuck = r.call(func() { _ = r.ch.Write(e3WriteMsg("w:"+tag, ev.Reader)) })
 			m.chWrite("w:" + tag)
 		case "chtrigger":
 			escaped, stuck = r.call(func() { r.ch.Trigger("e:" + tag) })
@@ -308,7 +314,7 @@ func runC07(c E3Case) (out core.Outcome) {
 			ctx := r.pl.ContextAt(pos)
 			what = fmt.Sprintf("event %d (%s at position %d)", ei, ev.Entry, pos)
 			if ev.Entry == "ctxwrite" {
-				escaped, stuck = r.call(func() { ctx.Write([]byte("w:" + tag)) })
+				escaped, stuck = r.call(func() { ctx.Write(e3WriteMsg("w:"+tag, ev.Reader)) })
 				m.ctxWrite(pos, "w:"+tag)
 			} else {
 				escaped, stuck = r.call(func() { ctx.Trigger("e:" + tag) })
